@@ -258,6 +258,22 @@ def solve_cases(draw):
         opt = {'maxiter': draw(st.integers(20, 150))}
     else:
         opt = {'maxiter': draw(st.integers(1, 4))}
+    # keep the total energy bounded below, otherwise the line searches run away (and GammaSurface wraps a coordinate of
+    # 1e17 by subtracting 1.0 in a loop): alpha >= 0, beta with non-negative row sums, no stress when the elastic term
+    # uses central differences (it is then blind to a saw-tooth disregistry, along which the stress term is linear)
+    se = c['set']
+    if isinstance(se['alpha'], list):
+        se['alpha'] = [abs(a) for a in se['alpha']]
+    elif se['alpha'] is not None:
+        se['alpha'] = abs(se['alpha'])
+    be = [list(r) for r in se['beta']]
+    for i in range(3):
+        rs = sum(be[i])
+        if rs < 0:
+            be[i][i] = round(be[i][i] - rs, 5)
+    se['beta'] = be
+    if se['cdiffelastic']:
+        se['tau'] = [[0.0] * 3 for _ in range(3)]
     c['method'] = meth
     c['options'] = opt
     c['default_method'] = meth == 'Powell' and draw(_bool)
@@ -269,9 +285,9 @@ def halfwidth_cases(draw):
     b = draw(_b)
     char = draw(st.sampled_from(['edge', 'screw']))
     K = draw(_mod)
-    xi_over_b = draw(gens.nice(0.8, 1.6, 3))                 # classical half-width in units of b
+    xi_over_b = draw(gens.nice(0.8, 1.3, 3))                 # classical half-width in units of b
     return {'b': b, 'char': char, 'Kbb': K, 'Kother': [draw(_eig), draw(_eig)], 'xi_over_b': xi_over_b,
-            'kstep': draw(st.integers(10, 14)), 'n1': draw(st.integers(10, 15)), 'n2': draw(st.integers(4, 6)),
+            'kstep': draw(st.integers(10, 12)), 'n1': draw(st.integers(10, 15)), 'n2': draw(st.integers(4, 6)),
             'c': draw(_len), 'frame': draw(st.sampled_from([['x', 'y'], ['z', 'x'], ['y', 'z']])),
             'cdiffelastic': draw(_bool)}
 
